@@ -327,7 +327,8 @@ def targets(tier='quick'):
     RD = dyn.cd_registry()
     for ne in (0, 1):
         T.append(Target('dyn/schedule[envs=%d]' % ne, 'system_dynamics.compute_dynamics',
-                        lambda ip, repo, ne=ne: dyn.cd_scenario(ip, repo, num_envs=ne), post_cd_schedule, RD, PROP))
+                        lambda ip, repo, ne=ne: dyn.cd_scenario(ip, repo, num_envs=ne), post_cd_schedule, RD, PROP,
+                        replay=lambda ob: {'func': 'dynamics_with_controls', 'inputs': {'obligation': ob['name']}}))
     return T
 
 
